@@ -8,6 +8,7 @@ import (
 	"sort"
 	"strings"
 	"sync/atomic"
+	"time"
 
 	"github.com/EliCDavis/polyform/math/geometry"
 	"github.com/EliCDavis/polyform/math/sample"
@@ -24,14 +25,18 @@ import (
 const blockCells = 100 // marchingSectionSize: a canvas block is 100^3 cells
 
 type fieldDesc struct {
-	Kind   string     `json:"kind"` // ellipsoid | slab | gyroid | lattice
-	Lo     [3]float64 `json:"lo"`   // domain in canvas cells (world = cells / cpu)
-	Hi     [3]float64 `json:"hi"`
-	Attrs  []string   `json:"attrs"`
-	P      [6]float64 `json:"p"` // shape parameters
-	Salt   uint32     `json:"salt"`
-	Yield  uint32     `json:"yield_mask"`
-	blocks [3][2]int  // predicted block range per axis
+	Kind  string     `json:"kind"` // ellipsoid | slab | gyroid | lattice
+	Lo    [3]float64 `json:"lo"`   // domain in canvas cells (world = cells / cpu)
+	Hi    [3]float64 `json:"hi"`
+	Attrs []string   `json:"attrs"`
+	P     [6]float64 `json:"p"` // shape parameters
+	Salt  uint32     `json:"salt"`
+	Yield uint32     `json:"yield_mask"`
+	// DelayAttr: the first evaluation of this attribute's function in every Add* call sleeps
+	// DelayUS microseconds, so that one job is reliably the last to finish.
+	DelayAttr string    `json:"delay_attr,omitempty"`
+	DelayUS   int       `json:"delay_us,omitempty"`
+	blocks    [3][2]int // predicted block range per axis
 }
 
 type scene struct {
@@ -121,6 +126,13 @@ func genScene(r *rand.Rand, budget int, maxFields int) *scene {
 			}
 			for i := range fd.P {
 				fd.P[i] = r.Float64()
+			}
+			if r.Intn(4) != 0 {
+				fd.DelayAttr = fd.Attrs[0]
+				if r.Intn(10) >= 7 {
+					fd.DelayAttr = fd.Attrs[r.Intn(len(fd.Attrs))]
+				}
+				fd.DelayUS = 3000 + r.Intn(25000)
 			}
 			sc.Fields = append(sc.Fields, fd)
 		}
@@ -221,9 +233,36 @@ type probe struct {
 	inflight int32
 	maxSeen  int32
 	evals    int64
+	// per Add* call (= per field of the scene): evaluations so far, and what the harness saw
+	// at the moment the call returned
+	perCall          [4]int64
+	atReturn         [4]int64
+	inflightAtReturn [4]int32
+	calls            int
 }
 
-func (p *probe) enter(v vector3.Float64) {
+// returned is called by the harness right after Add* call number i returned.
+func (p *probe) returned(i int) {
+	p.atReturn[i] = atomic.LoadInt64(&p.perCall[i])
+	p.inflightAtReturn[i] = atomic.LoadInt32(&p.inflight)
+	p.calls = i + 1
+}
+
+// late reports field-function activity that outlived the Add* call that caused it: the
+// sequential AddField has finished every evaluation (and every accumulation) when it returns.
+func (p *probe) late() string {
+	for i := 0; i < p.calls; i++ {
+		now := atomic.LoadInt64(&p.perCall[i])
+		if p.inflightAtReturn[i] != 0 || now != p.atReturn[i] {
+			return fmt.Sprintf("call %d (field %d of the scene): %d field-function evaluation(s) were still in flight when the call returned and %d evaluation(s) of its functions started or finished after it returned (%d at return, %d at the end of the case)",
+				i, i, p.inflightAtReturn[i], now-p.atReturn[i], p.atReturn[i], now)
+		}
+	}
+	return ""
+}
+
+func (p *probe) enter(v vector3.Float64, call int) {
+	atomic.AddInt64(&p.perCall[call&3], 1)
 	n := atomic.AddInt32(&p.inflight, 1)
 	for {
 		m := atomic.LoadInt32(&p.maxSeen)
@@ -274,7 +313,7 @@ func hash3(x, y, z int64, salt uint32) uint32 {
 
 // function builds the scalar function of one field for one attribute. ai (attribute
 // ordinal) perturbs the shape so that attributes of one field are different surfaces.
-func (fd *fieldDesc) function(cpu float64, ai int, pr *probe) sample.Vec3ToFloat {
+func (fd *fieldDesc) function(cpu float64, ai int, pr *probe, call int, attr string) sample.Vec3ToFloat {
 	lo, hi := fd.Lo, fd.Hi
 	var c, half [3]float64 // world units
 	for a := 0; a < 3; a++ {
@@ -339,10 +378,18 @@ func (fd *fieldDesc) function(cpu float64, ai int, pr *probe) sample.Vec3ToFloat
 			return vals[2+((hash3(ix, iy, iz, salt)>>9)&1)]
 		}
 	}
+	var delayed int32
+	delay := time.Duration(0)
+	if attr == fd.DelayAttr {
+		delay = time.Duration(fd.DelayUS) * time.Microsecond
+	}
 	return func(v vector3.Float64) float64 {
 		if pr != nil {
-			pr.enter(v)
+			pr.enter(v, call)
 			defer pr.leave()
+		}
+		if delay > 0 && atomic.CompareAndSwapInt32(&delayed, 0, 1) {
+			time.Sleep(delay) // a schedule perturbation, not a clock read: makes this job the late one
 		}
 		maybeYield(v)
 		return f(v)
@@ -359,7 +406,7 @@ func (sc *scene) field(i int, pr *probe) marching.Field {
 				ai = k
 			}
 		}
-		fns[a] = fd.function(sc.CPU, ai, pr)
+		fns[a] = fd.function(sc.CPU, ai, pr, i, a)
 	}
 	return marching.Field{Domain: fd.domain(sc.CPU), Float1Functions: fns}
 }
@@ -616,6 +663,9 @@ func (sc *scene) fill(how adder, pr *probe) (cv *marching.MarchingCanvas, p *run
 			case addPar2:
 				cv.AddFieldParallel2(f)
 			}
+			if pr != nil {
+				pr.returned(i)
+			}
 		}
 	})
 	return
@@ -706,14 +756,15 @@ func fieldCase(c *run.Ctx) run.Result {
 	}
 	// number of field-function evaluations: evidence only (the property states result equality
 	// for field accumulation, not a visitation count)
-	if (pp == nil && prPar.evals != prSeq.evals) || (pp2 == nil && prPar2.evals != prSeq.evals) {
+	eSeq, ePar, ePar2 := atomic.LoadInt64(&prSeq.evals), atomic.LoadInt64(&prPar.evals), atomic.LoadInt64(&prPar2.evals)
+	if (pp == nil && ePar != eSeq) || (pp2 == nil && ePar2 != eSeq) {
 		res.Count("field_eval_count_differs_from_sequential", 1)
 	}
-	res.Count("field_function_evaluations", prSeq.evals+prPar.evals+prPar2.evals)
+	res.Count("field_function_evaluations", eSeq+ePar+ePar2)
 	res.SetAdd("field_block_orders", "P1:"+prPar.orderString())
 	res.SetAdd("field_block_orders", "P2:"+prPar2.orderString())
-	res.SetAdd("field_eval_concurrency", fmt.Sprint(prPar.maxSeen))
-	res.SetAdd("field_eval_concurrency", fmt.Sprint(prPar2.maxSeen))
+	res.SetAdd("field_eval_concurrency", fmt.Sprint(atomic.LoadInt32(&prPar.maxSeen)))
+	res.SetAdd("field_eval_concurrency", fmt.Sprint(atomic.LoadInt32(&prPar2.maxSeen)))
 	res.SetAdd("gomaxprocs", fmt.Sprint(runtime.GOMAXPROCS(0)))
 
 	totalTris := 0
@@ -775,6 +826,31 @@ func fieldCase(c *run.Ctx) run.Result {
 			res.Count("field_empty_surfaces", 1)
 		}
 	}
+	// all marches are done (hundreds of milliseconds later): did any field function run after
+	// the Add* call that owns it had returned?
+	if l := prSeq.late(); l != "" {
+		res.Inconclusive = "reference: AddField itself " + l
+		return res
+	}
+	for _, v := range []struct {
+		how adder
+		pr  *probe
+		bad bool
+	}{{addPar, prPar, pp != nil}, {addPar2, prPar2, pp2 != nil}} {
+		if v.bad {
+			continue
+		}
+		if l := v.pr.late(); l != "" {
+			res.Violate("returns-before-done", adderSite[v.how], input,
+				adderSite[v.how]+" returned while its work was still going on (AddField has evaluated and accumulated everything when it returns): "+l, sc.witness())
+		}
+		res.Count("field_calls_checked_for_late_work", int64(v.pr.calls))
+	}
+	for _, f := range sc.Fields {
+		if f.DelayUS > 0 {
+			res.Count("field_delayed_first_evaluation", 1)
+		}
+	}
 	res.Count("field_blocks", int64(sc.blocks*len(sc.Attrs)))
 	for _, f := range sc.Fields {
 		if len(f.Attrs) > 1 {
@@ -833,8 +909,6 @@ func fieldRace(c *run.Ctx) run.Result {
 	if pa != nil || pb != nil {
 		return res
 	}
-	res.SetAdd("field_block_orders", "P1:"+prA.orderString())
-	res.SetAdd("field_block_orders", "P2:"+prB.orderString())
 	res.SetAdd("race_gomaxprocs", fmt.Sprint(runtime.GOMAXPROCS(0)))
 	res.SetAdd("gomaxprocs", fmt.Sprint(runtime.GOMAXPROCS(0)))
 	res.Count("race_field_blocks_filled", int64(2*sc.blocks*len(sc.Attrs)))
@@ -864,6 +938,19 @@ func fieldRace(c *run.Ctx) run.Result {
 				res.Violate("field-accumulate-mismatch", "MarchingCanvas.AddFieldParallel / AddFieldParallel2", input,
 					"attribute "+attr+": the canvases filled by AddFieldParallel (reference below) and AddFieldParallel2 march (in parallel) to different meshes: "+d, sc.witness())
 			}
+		}
+	}
+	// the probes are read only now, after the marches: an atomic load here would order the
+	// workers' earlier writes before the march and could hide a race from the detector
+	res.SetAdd("field_block_orders", "P1:"+prA.orderString())
+	res.SetAdd("field_block_orders", "P2:"+prB.orderString())
+	for _, v := range []struct {
+		how adder
+		pr  *probe
+	}{{addPar, prA}, {addPar2, prB}} {
+		if l := v.pr.late(); l != "" {
+			res.Violate("returns-before-done", adderSite[v.how], input,
+				adderSite[v.how]+" returned while its work was still going on: "+l, sc.witness())
 		}
 	}
 	res.Count("race_field_triangles", int64(tris))
